@@ -38,7 +38,7 @@ GOENV = {
 DEFAULT = dict(shards=(8, 16), limit=(240, 2400), race=False, as_gib=16, native_fuzz=False)
 PROPS = {
     "C01": dict(pkg="c01", native_fuzz=("FuzzParse", 120)), "C02": dict(pkg="c02", cli="plain"), "C03": dict(pkg="c03"), "C04": dict(pkg="c04", native_fuzz=("FuzzTokens", 90)),
-    "C05": dict(pkg="c05"), "C06": dict(pkg="c06"), "C07": dict(pkg="c07"), "C08": dict(pkg="c08"),
+    "C05": dict(pkg="c05"), "C06": dict(pkg="c06", native_fuzz=("FuzzErrors", 75)), "C07": dict(pkg="c07", native_fuzz=("FuzzRecovered", 75)), "C08": dict(pkg="c08"),
     "C09": dict(pkg="c09", shards=(4, 16), cli="plain"), "C10": dict(pkg="c10"),
     "C11": dict(pkg="c11", race=True, as_gib=0, shards=(4, 8), cli="race"),
     "C12": dict(pkg="c12"), "C13": dict(pkg="c13"), "C14": dict(pkg="c14", cli="plain"), "C15": dict(pkg="c15"),
